@@ -21,6 +21,7 @@ package openapi
 //@ func initAttributeValidation
 //@   params s at
 //@   property C14
+//@   locals val:*expr.ValidationExpr ok:bool ok#2:bool v:string a:*expr.AttributeExpr
 //@   requires s != nil && at != nil
 //@   let val = old(at.Validation)
 //@   let isArray = typeIs(old(at.Type), *expr.Array)
@@ -49,7 +50,7 @@ package openapi
 // and sorted before they are interpreted (and no other loop of the function ranges over a map).
 //@ func TagsFromExpr
 //@   params mdata
-//@   locals keys
+//@   locals tags:[]*openapi.Tag keys:[]string k:string key:string chunks:[]string name:string tag:*openapi.Tag t:*openapi.Tag idx:int
 //@   opt maprange deterministic
 //@   loop 1 invariant own: keys.arr == 0 || sinceEntry(keys)
 //@   property C09
@@ -60,21 +61,25 @@ package openapi
 // a range over a map appearing anywhere else in the package is reported.
 //@ maprange-census property C09: (*Schema).Dup=2 ToStringMap=1 extensionsFromExprWithPrefix=1 propertiesFromDefs=1
 //@ func (*Schema).Merge
+//@   params s other
 //@   opt maprange deterministic
 //@   opt inline none
 //@   opt loopframes none
 //@   property C09
 //@ func ExtensionsFromExpr
+//@   params mdata
 //@   opt maprange deterministic
 //@   opt inline none
 //@   opt loopframes none
 //@   property C09
 //@ func MarshalJSON
+//@   params v extensions
 //@   opt maprange deterministic
 //@   opt inline none
 //@   opt loopframes none
 //@   property C09
 //@ func MarshalYAML
+//@   params v extensions
 //@   opt maprange deterministic
 //@   opt inline none
 //@   opt loopframes none
